@@ -315,7 +315,7 @@ static void *client_main(void *p) {
     }
   }
   /* after the application's last change: keep asking until the picture is the final one */
-  for (i = 0; i < 60 && !c->converged && c->ok; i++) {
+  for (i = 0; i < 200 && !c->converged && c->ok; i++) {
     int j, r;
     cl_fur(fd, 1);
     r = cl_read_msg(fd, c, 100);
@@ -536,10 +536,197 @@ static int run_forced(int which) {
   return 0;
 }
 
+/* ================================================================== phases: final contents
+ * Staying clients of three kinds (Raw only / CopyRect+Raw / CopyRect+Raw+RichCursor+PointerPos) and an idle
+ * "mover".  Each phase: with NO request outstanding the application performs ONE last framebuffer
+ * operation, then every staying client sends ONE incremental request and must receive an update and
+ * show the application's framebuffer within a bounded wait.  The 16x16 corner where the cursor lives is
+ * excluded from the comparison (soft cursor painted into what non-cursor-shape clients receive). */
+#define PW 64
+#define PH 48
+#define CORNER 16
+enum { PH_MARK, PH_COPYRECT, PH_COPYREGION, PH_CURMOVE, PH_CURREPLACE, PH_BELL, PH_CUTTEXT, PH_NEWFB, PH_N };
+static const char *ph_name[PH_N] = {"mark", "copyrect", "copyregion", "cursormove", "cursorreplace", "bell", "cuttext", "newfb"};
+typedef struct { int kind; int port; int fd; int ok; uint32_t fb[PW * PH]; int updates; int why; } pcli_t;
+
+static int pc_read_msg(pcli_t *c, int ms) {
+  unsigned char h[12]; int fd = c->fd;
+  if (rd_full(fd, h, 1, ms)) return -1;
+  if (h[0] == 0) {
+    int n, i;
+    if (rd_full(fd, h + 1, 3, 5000)) return -3;
+    n = (h[2] << 8) | h[3];
+    for (i = 0; i < n; i++) {
+      int x, y, w, hh, yy; uint32_t enc;
+      if (rd_full(fd, h, 12, 5000)) return -3;
+      x = (h[0] << 8) | h[1]; y = (h[2] << 8) | h[3]; w = (h[4] << 8) | h[5]; hh = (h[6] << 8) | h[7];
+      enc = ((uint32_t)h[8] << 24) | (h[9] << 16) | (h[10] << 8) | h[11];
+      if (enc == 0) {
+        if (x + w > PW || y + hh > PH) { c->why = 201; return -2; }
+        for (yy = 0; yy < hh; yy++) if (rd_full(fd, &c->fb[(y + yy) * PW + x], (size_t)w * 4, 5000)) return -3;
+      } else if (enc == 1) {
+        unsigned char s4[4]; int sx, sy; static uint32_t tmp[PW * PH];
+        if (rd_full(fd, s4, 4, 5000)) return -3;
+        sx = (s4[0] << 8) | s4[1]; sy = (s4[2] << 8) | s4[3];
+        if (x + w > PW || y + hh > PH || sx + w > PW || sy + hh > PH) { c->why = 202; return -2; }
+        memcpy(tmp, c->fb, sizeof tmp);
+        for (yy = 0; yy < hh; yy++) memcpy(&c->fb[(y + yy) * PW + x], &tmp[(sy + yy) * PW + sx], (size_t)w * 4);
+      } else if (enc == 0xFFFFFF11u) {            /* RichCursor */
+        static unsigned char junk[64 * 64 * 4 + 64 * 8]; size_t len = (size_t)w * hh * 4 + (size_t)((w + 7) / 8) * hh;
+        if (len > sizeof junk || (len && rd_full(fd, junk, len, 5000))) return -3;
+      } else if (enc == 0xFFFFFF18u) {            /* PointerPos: no payload */
+      } else { c->why = 300 + (int)(enc & 0xff); return -2; }
+    }
+    c->updates++;
+    return 0;
+  }
+  if (h[0] == 2) return 2;
+  if (h[0] == 3) { uint32_t l; unsigned char tt[64]; if (rd_full(fd, h + 1, 7, 5000)) return -3;
+                   l = ((uint32_t)h[4] << 24) | (h[5] << 16) | (h[6] << 8) | h[7]; if (l > 64 || rd_full(fd, tt, l, 5000)) return -3; return 3; }
+  c->why = 1000 + h[0];
+  return -2;
+}
+static int pc_fur(pcli_t *c, int incr) {
+  unsigned char m[10] = {3, (unsigned char)incr, 0, 0, 0, 0, 0, PW, 0, PH};
+  return wr_full(c->fd, m, 10);
+}
+static int pc_connect(pcli_t *c) {
+  unsigned char se[4 + 4 * 4]; int n = 0; uint32_t encs[4];
+  c->fd = cl_connect(c->port);
+  if (c->fd < 0 || cl_handshake(c->fd)) return -1;      /* cl_handshake ends with SetEncodings {Raw} */
+  if (c->kind >= 1) { encs[n++] = 1; }
+  encs[n++] = 0;
+  if (c->kind == 2) { encs[n++] = 0xFFFFFF11u; encs[n++] = 0xFFFFFF18u; }
+  se[0] = 2; se[1] = 0; se[2] = 0; se[3] = (unsigned char)n;
+  { int i; for (i = 0; i < n; i++) { se[4 + 4 * i] = encs[i] >> 24; se[5 + 4 * i] = encs[i] >> 16; se[6 + 4 * i] = encs[i] >> 8; se[7 + 4 * i] = encs[i]; } }
+  if (wr_full(c->fd, se, 4 + 4 * n)) return -1;
+  c->ok = 1;
+  return 0;
+}
+static int pc_diff(pcli_t *c, const uint32_t *fb) {
+  int x, y, d = 0;
+  for (y = 0; y < PH; y++) for (x = 0; x < PW; x++) if (!(x < CORNER && y < CORNER) && c->fb[y * PW + x] != fb[y * PW + x]) d++;
+  return d;
+}
+/* read until the picture is the application's (and at least min_updates updates came) or ms expired */
+static int pc_settle(pcli_t *c, const uint32_t *fb, int min_updates, int ms) {
+  int u0 = c->updates, waited = 0;
+  for (;;) {
+    int r;
+    if (c->updates - u0 >= min_updates && pc_diff(c, fb) == 0) return 0;
+    if (waited >= ms) return -1;
+    r = pc_read_msg(c, 50);
+    if (r == -2 || r == -3) return -2;
+    if (r == -1) waited += 50;
+  }
+}
+
+static int run_phases(unsigned seed, int ypct, int rounds) {
+  int argc = 0, port, i, k, ph, order[PH_N], fails = 0, nph = 0; static pcli_t c[4];
+  uint32_t *fb, *fb2 = NULL; char failtxt[400] = "";
+  rfbCursorPtr cur;
+  g_seed = seed; g_yield_pct = ypct;
+  rfbLogEnable(getenv("VDRV_LOG") != NULL);
+  S = rfbGetScreen(&argc, NULL, PW, PH, 8, 3, 4);
+  fb = (uint32_t *)calloc(PW * PH, 4); S->frameBuffer = (char *)fb;
+  for (i = 0; i < PW * PH; i++) fb[i] = 0x00300000u + (uint32_t)i * 3u;
+  S->deferUpdateTime = 1; S->newClientHook = new_hook; S->alwaysShared = TRUE;
+  cur = rfbMakeXCursor(4, 4, (char *)"xxxxxxxxxxxxxxxx", (char *)"xxxxxxxxxxxxxxxx");
+  S->cursor = cur; S->cursorX = 4; S->cursorY = 4;
+  phase("init", 20);
+  port = start_server();
+  if (port < 0) { printf("result error=nolisten\n"); return 1; }
+  LIBCALL(rfbRunEventLoop(S, -1, TRUE));
+  phase("connect", 30);
+  for (k = 0; k < 4; k++) {
+    memset(&c[k], 0, sizeof c[k]); c[k].kind = k < 3 ? k : 0; c[k].port = port;
+    if (pc_connect(&c[k])) { printf("result error=connect%d\n", k); return 1; }
+    pc_fur(&c[k], 0);
+    if (pc_settle(&c[k], fb, 1, 5000)) { printf("result error=initial%d why=%d\n", k, c[k].why); return 1; }
+  }
+  for (i = 0; i < PH_N; i++) order[i] = i;
+  for (i = PH_N - 1; i > 0; i--) { int j = (int)(rnd() % (unsigned)(i + 1)), tmp = order[i]; order[i] = order[j]; order[j] = tmp; }
+  for (ph = 0; ph < rounds * PH_N; ph++) {
+    int op = order[ph % PH_N], j;
+    unsigned r = rnd();
+    phase(ph_name[op], 30);
+    nph++;
+    /* no request is outstanding now.  ONE last operation: */
+    switch (op) {
+    case PH_MARK:
+      for (j = 0; j < 60; j++) fb[(20 + (int)(r % 20)) * PW + 20 + j % 40] = rnd();
+      LIBCALL(rfbMarkRectAsModified(S, 16, 16, PW, PH));
+      break;
+    case PH_COPYRECT:
+      LIBCALL(rfbDoCopyRect(S, 24, 20, 48, 40, 8, 4));
+      break;
+    case PH_COPYREGION: {
+      sraRegionPtr rg = sraRgnCreateRect(40, 20, 56, 28), r2 = sraRgnCreateRect(40, 32, 56, 40);
+      sraRgnOr(rg, r2);
+      LIBCALL(rfbDoCopyRegion(S, rg, 20, 0));
+      sraRgnDestroy(rg); sraRgnDestroy(r2);
+      break; }
+    case PH_CURMOVE:
+      LIBCALL(rfbDefaultPtrAddEvent(0, 2 + (int)(r % 9), 2 + (int)((r >> 8) % 9), slots[3].cl));
+      break;
+    case PH_CURREPLACE: {
+      rfbCursorPtr nc = rfbMakeXCursor(4, 4, (char *)((r & 1) ? "x  x xx  xx x  x" : " xx x  xx  x xx "), (char *)"xxxxxxxxxxxxxxxx");
+      nc->cleanup = TRUE;
+      LIBCALL(rfbSetCursor(S, nc));
+      break; }
+    case PH_BELL:
+      fb[30 * PW + 30] ^= 0x00ffffffu; LIBCALL(rfbMarkRectAsModified(S, 30, 30, 31, 31));
+      LIBCALL(rfbSendBell(S));
+      break;
+    case PH_CUTTEXT:
+      fb[31 * PW + 31] ^= 0x00ffffffu; LIBCALL(rfbMarkRectAsModified(S, 31, 31, 32, 32));
+      LIBCALL(rfbSendServerCutText(S, (char *)"phase", 5));
+      break;
+    case PH_NEWFB:
+      fb2 = (uint32_t *)malloc(PW * PH * 4);
+      for (j = 0; j < PW * PH; j++) fb2[j] = fb[j] ^ 0x00010101u;
+      LIBCALL(rfbNewFramebuffer(S, (char *)fb2, PW, PH, 8, 3, 4));
+      free(fb); fb = fb2; fb2 = NULL;
+      break;
+    }
+    usleep(2000 + r % 3000);
+    /* every staying client now asks once, incrementally, and must be served */
+    for (k = 0; k < 3; k++) pc_fur(&c[k], 1);
+    for (k = 0; k < 3; k++) {
+      int rr = pc_settle(&c[k], fb, 1, 8000);
+      if (rr) {
+        size_t l = strlen(failtxt);
+        fails++;
+        if (l + 40 < sizeof failtxt) snprintf(failtxt + l, sizeof failtxt - l, "%s%s:k%d:%s:d%d", l ? "," : "", ph_name[op], c[k].kind,
+                                              rr == -1 ? "noupdate" : "badstream", pc_diff(&c[k], fb));
+        if (rr == -2) goto out;
+        /* re-synchronise so that later phases start again without a request outstanding */
+        pc_fur(&c[k], 0); pc_settle(&c[k], fb, 1, 3000);
+      }
+    }
+  }
+out:
+  /* the verdict of the phases does not depend on how the shutdown goes */
+  printf("presult mode=phases phases=%d phasefails=%d failed=[%s]\n", nph, fails, failtxt);
+  fflush(stdout);
+  for (k = 0; k < 4; k++) close(c[k].fd);
+  { int w = 0; while (g_gone < g_new && w++ < 2000) usleep(500); }
+  phase("shutdown", 25);
+  LIBCALL(rfbShutdownServer(S, TRUE));
+  phase("cleanup", 25);
+  { int w = 0; while (g_gone < g_new && w++ < 2000) usleep(500); }
+  LIBCALL(rfbScreenCleanup(S));
+  alarm(0);
+  printf("result hang=0 mode=phases phases=%d phasefails=%d failed=[%s] new=%d gone=%d\n", nph, fails, failtxt, g_new, g_gone);
+  free(fb);
+  return 0;
+}
+
 static void run_case(char *line) {
   unsigned seed = 1; int y = 20, a = 2, b = 2, c = 1, d = 2, e = 5, f = 1;
   pid_t pid; int status = 0;
-  int forced = 0;
+  int forced = 0; unsigned pseed = 1; int py = 20, prounds = 1;
+  if (!strncmp(line, "phases ", 7)) { forced = 9; sscanf(line, "phases %u %d %d", &pseed, &py, &prounds); }
   if (!strncmp(line, "force lostwakeup", 16)) forced = 1;
   else if (!strncmp(line, "force iteruaf", 13)) forced = 2;
   else if (!strncmp(line, "force cursor", 12)) forced = 3;
@@ -548,6 +735,7 @@ static void run_case(char *line) {
   pid = fork();
   if (pid == 0) {
     signal(SIGALRM, on_alarm); signal(SIGPIPE, SIG_IGN);
+    if (forced == 9) run_phases(pseed, py, prounds); else
     if (forced) run_forced(forced); else
     run_stress(seed, y, a, b, c, d, e, f);
     fflush(stdout);
@@ -572,7 +760,7 @@ int main(void) {
     while (n && (line[n - 1] == '\n' || line[n - 1] == '\r')) line[--n] = 0;
     if (!n) continue;
     if (!strncmp(line, "case ", 5)) { printf("%s\n", line); continue; }
-    if (!strncmp(line, "stress ", 7) || !strncmp(line, "force ", 6)) run_case(line);
+    if (!strncmp(line, "stress ", 7) || !strncmp(line, "force ", 6) || !strncmp(line, "phases ", 7)) run_case(line);
   }
   fflush(stdout);
   _exit(0);
